@@ -1,4 +1,18 @@
-// engine K harnesses for module hook 'oprf_distributions' (included under cfg(kani) by /repo)
+// engine K — protocol/ipa_prf/oprf_padding/distributions.rs: constructor of the opaque sampler state for the
+// C12 harnesses in protocol/dp (the sampler itself is never run: probability laws are out of reach).
+use super::*;
+
+/// a TruncatedDoubleGeometric with truncation point `shift` (support 0..=2*shift); inner sampler state arbitrary
+pub(crate) fn mk_truncated_double_geometric(shift: u32) -> TruncatedDoubleGeometric {
+    let Ok(bernoulli) = Bernoulli::new(0.5) else {
+        kani::assume(false);
+        unreachable!()
+    };
+    TruncatedDoubleGeometric {
+        shift_doubled: 2 * shift,
+        double_geometric: DoubleGeometric { shift, geometric: Geometric { bernoulli } },
+    }
+}
 
 #[cfg(test)]
 include!(concat!(env!("IPA_VERIF_DIR"), "/.build/playback/oprf_distributions.rs"));
